@@ -34,6 +34,12 @@ pub struct KCfg {
     pub stop_from_pool: bool,
     pub scripts: Vec<Script>,
     pub perturb: u8,
+    /// stop(x) is in flight, waiting for an effect of x that stays parked, when the idle store y is stopped
+    /// by another thread; the effect is released only after stop(y) has returned (natively only)
+    pub concurrent_stop: bool,
+    /// metamorphic probe in fresh child processes (process-wide state cannot be reset in-process): the
+    /// number of effects a store runs at once must not depend on a store created before it
+    pub pool_probe: bool,
 }
 
 pub fn gen(rng: &mut Rng, tiny: bool) -> KCfg {
@@ -85,6 +91,8 @@ pub fn gen(rng: &mut Rng, tiny: bool) -> KCfg {
         cross_dispatch: if rng.chance(1, 2) { Some(rng.below(2) as u8) } else { None },
         scripts,
         perturb: rng.below(3) as u8,
+        concurrent_stop: !cfg!(miri) && rng.chance(1, 6),
+        pool_probe: !cfg!(miri) && !tiny && (rng.chance(1, 40) || std::env::var("RSV_FORCE").as_deref() == Ok("pool_probe")),
     }
 }
 
@@ -102,11 +110,131 @@ pub fn describe(c: &KCfg) -> J {
         ("effects_of_first_stopped_store_parked", J::U(c.flood as u64)),
         ("first_stop_runs_into_timeout", J::B(c.stop_times_out)),
         ("stop_called_from_other_stores_pool", J::B(c.stop_from_pool)),
+        ("stop_of_idle_store_while_other_stop_waits_for_its_parked_effect", J::B(c.concurrent_stop)),
+        ("pool_probe_in_child_processes", J::B(c.pool_probe)),
         ("subscriber_of_store_dispatching_into_the_other", c.cross_dispatch.map(|s| J::U(s as u64)).unwrap_or(J::Null)),
     ])
 }
 
+const MARK_Y_STOPPED: u32 = 13;
+const MARK_POOL_PROBE: u32 = 14;
+
+/// x has one effect parked at gate 0; T1 calls stop(x) (it waits for that effect); the main thread then
+/// uses and stops the idle store y and only afterwards opens the gate.
+fn execute_concurrent_stop(c: &KCfg, seed: u64) -> W {
+    let ctx = Ctx::new(ScriptSrc::Table(c.scripts.clone()), 2, seed, c.perturb, false);
+    // (blocking policy: the action carrying the parked effect must not be discarded)
+    let w = W::new(ctx, c.stores.iter().map(|s| StoreCfg { policy: POL_BLOCK, ..s.clone() }).collect());
+    let mut keep = Vec::new();
+    for s in 0..2u8 {
+        keep.push(w.add_direct(s, NOGATE, false, true, false));
+    }
+    let x = c.first_stop;
+    let y = 1 - x;
+    let flood_script = c.scripts.len() as u32 - 1;
+    for s in 0..2u8 {
+        for k in 0..(c.per_prod[s as usize].min(c.stores[s as usize].cap)) {
+            w.dispatch(s, EP_INHERENT, Act { id: act_id(s, 1, k as u32 + 1), script: 0 });
+        }
+    }
+    w.dispatch(x, EP_INHERENT, Act { id: act_id(x, 34, 1), script: flood_script });
+    if !w.ctx.gates[0].wait_parked(1) {
+        w.mark(900, 2);
+        w.ctx.gates[1].wait();
+    }
+    std::thread::scope(|sc| {
+        let w = &w;
+        let t1 = std::thread::Builder::new().name("stopper-x".into()).spawn_scoped(sc, move || w.stop(x, STOP_STOP)).unwrap();
+        crate::fam_a::wait_until(|| crate::fam_a::count_where(w, |e| e.k == K::StopInv && e.store == x) >= 1);
+        // let stop(x) get as far as waiting for its effect
+        std::thread::sleep(std::time::Duration::from_millis(15));
+        for k in 0..c.post_actions {
+            w.dispatch(y, EP_INHERENT, Act { id: act_id(y, 31, k as u32 + 1), script: 0 });
+        }
+        w.stop(y, STOP_STOP);
+        w.mark(MARK_Y_STOPPED, 0);
+        w.ctx.gates[0].open();
+        t1.join().unwrap();
+    });
+    w.read(0);
+    w.read(1);
+    w.metrics(0);
+    w.metrics(1);
+    drop(keep);
+    w
+}
+
+/// Child process: a first store (capacity `first_cap`, policy `first_pol`, never used) and then the store
+/// under test (capacity 16, blocking). 40 actions each hand a Task to the pool that parks at a gate; prints
+/// how many of them run at once (the count that stays unchanged for 300 ms).
+pub fn pool_probe_child(first_cap: usize, first_pol: u8, same_name: bool) {
+    let mut fl = Script::plain();
+    fl.eff[0] = Some(EffSpec { kind: EK_TASK, follow_script: 0, n_follow: 0, panic: false, gate: 0 });
+    let ctx = Ctx::new_opts(ScriptSrc::Table(vec![fl]), 1, 1, 0, false, true);
+    let w = W::new(ctx, vec![
+        StoreCfg { policy: first_pol, cap: first_cap, n_red: 1, n_mw: 0, name: if same_name { "probe".into() } else { "first".into() }, ctor: 0 },
+        StoreCfg { policy: POL_BLOCK, cap: 16, n_red: 1, n_mw: 0, name: "probe".into(), ctor: 0 },
+    ]);
+    for k in 0..40u32 {
+        w.dispatch(1, EP_INHERENT, Act { id: act_id(1, 1, k + 1), script: 0 });
+    }
+    w.ctx.c_red.wait_at_least(40, 20);
+    let mut last = (w.ctx.c_eff.get(), std::time::Instant::now());
+    let t0 = std::time::Instant::now();
+    while last.1.elapsed().as_millis() < 300 && t0.elapsed().as_secs() < 20 {
+        std::thread::sleep(std::time::Duration::from_millis(5));
+        let n = w.ctx.c_eff.get();
+        if n != last.0 {
+            last = (n, std::time::Instant::now());
+        }
+    }
+    println!("P {}", last.0);
+    w.ctx.gates[0].open();
+    w.stop(1, STOP_STOP);
+    w.stop(0, STOP_STOP);
+}
+
+fn run_probe(first_cap: usize, first_pol: u8, same_name: bool) -> Option<u64> {
+    let exe = std::env::current_exe().ok()?;
+    let out = std::process::Command::new(exe).args(["Kprobe", &first_cap.to_string(), &first_pol.to_string(), if same_name { "1" } else { "0" }]).output().ok()?;
+    let s = String::from_utf8_lossy(&out.stdout);
+    s.lines().find_map(|l| l.strip_prefix("P ")).and_then(|x| x.trim().parse().ok())
+}
+
+/// two children that differ only in the store created first; up to three attempts, a difference counts only
+/// if every attempt shows it
+fn execute_pool_probe(c: &KCfg, seed: u64) -> W {
+    let ctx = Ctx::new(ScriptSrc::Table(c.scripts.clone()), 2, seed, 0, false);
+    let w = W::new(ctx, c.stores.clone());
+    let mut verdict = (0u64, 0u64, 0u64); // (code, a, b): code 0 inconclusive, 1 equal, 2 different
+    for _ in 0..3 {
+        let a = run_probe(1, POL_LATEST, seed % 2 == 0);
+        let b = run_probe(16, POL_BLOCK, false);
+        match (a, b) {
+            (Some(a), Some(b)) if a == b => {
+                verdict = (1, a, b);
+                break;
+            }
+            (Some(a), Some(b)) => verdict = (2, a, b),
+            _ => {
+                verdict = (0, 0, 0);
+                break;
+            }
+        }
+    }
+    w.ctx.ev(K::Mark, 0, verdict.0 as u32, MARK_POOL_PROBE, verdict.1, verdict.2, 0);
+    w.stop(0, STOP_STOP);
+    w.stop(1, STOP_STOP);
+    w
+}
+
 pub fn execute(c: &KCfg, seed: u64) -> W {
+    if c.pool_probe {
+        return execute_pool_probe(c, seed);
+    }
+    if c.concurrent_stop {
+        return execute_concurrent_stop(c, seed);
+    }
     let ctx = Ctx::new(ScriptSrc::Table(c.scripts.clone()), 2, seed, c.perturb, false);
     let w = W::new(ctx, c.stores.clone());
     let mut keep = Vec::new();
@@ -276,6 +404,30 @@ pub fn c19(h: &Hist, w: &W, c: &KCfg, v: &mut Verdicts) {
     if h.evs.iter().any(|e| e.k == K::Mark && e.idx == 900) {
         v.inconcl("C19", "controller gave up waiting".into());
         return;
+    }
+    if let Some(m) = h.evs.iter().find(|e| e.k == K::Mark && e.idx == MARK_POOL_PROBE) {
+        match m.a {
+            2 => v.fail("C19", format!("a store (capacity 16, BlockOnFull, 40 parked Task effects) ran {} effects at once in a process whose first store had capacity 1 (DropLatest) and {} in a process whose first store had capacity 16 (BlockOnFull), in three attempts out of three: a store created earlier decides how another store executes its effects", m.x, m.y)),
+            1 => {
+                v.count("c19.pool_probe_pairs_equal", 1);
+                v.maxc("c19.max_effects_at_once_in_probe", m.x);
+                v.nontrivial.insert("C19");
+            }
+            _ => v.inconcl("C19", "probe child process did not report".into()),
+        }
+        return;
+    }
+    if c.concurrent_stop {
+        let (x, y) = (c.first_stop, 1 - c.first_stop);
+        if let (Some(sx), Some(sy)) = (first_stop(h, x), first_stop(h, y)) {
+            // the gate that lets stop(x) finish opens only after stop(y) returned: stop(x) can return before
+            // stop(y) only by running into its timeout, i.e. if stop(y) - an idle store - was held up that long
+            if sx.ms >= 2500 && sy.ms >= 2000 && sy.inv < sx.ret && sx.ret < sy.ret {
+                v.fail("C19", format!("stop() of the idle store {} (invoked at seq {}) returned only at seq {} after {} ms, after stop() of store {} (waiting for that store's own parked effect) had given up at seq {} after {} ms: stopping one store holds up stopping another", y, sy.inv, sy.ret, sy.ms, x, sx.ret, sx.ms));
+                return;
+            }
+            v.count("c19.idle_store_stopped_while_other_stop_in_flight", (sy.ret < sx.ret) as u64);
+        }
     }
     if stop_timed_out(h, 0) && stop_timed_out(h, 1) {
         v.inconcl("C19", "both stop() calls hit their timeout".into());
